@@ -102,6 +102,7 @@ fn classify(r: &mut CaseResult, script: &Script, obs: &Observation) {
     r.class_if(multi_changed, "idle_reply_with_several_names");
     r.class_if(split_idle_reply, "idle_reply_split_across_reads");
     r.class_if(script.max_write.is_some(), "partial_writes");
+    r.class_if(flatten(&script.steps).iter().any(|s| matches!(s, Step::StallWrites(_))), "write_backpressure");
     r.class_if(script.steps.iter().any(|s| matches!(s, Step::Together(_))), "simultaneous_steps");
     r.class_if(script.replies.iter().any(|(_, s)| matches!(s, ReplySpec::Ack { partial, .. } if !partial.is_empty())), "ack_after_partial_output");
     r.class_if(obs.requests.iter().any(|(_, q, _, _)| matches!(q, Req::TypedTuple(_) | Req::TypedVec(_))), "typed_list");
@@ -283,7 +284,7 @@ pub fn judge_c05(script: &Script, obs: &Observation) -> CaseResult {
     }
     // every written line is one of: idle, noidle, a request line, list framing
     for q in &obs.quiescent {
-        if !q.ended && !q.hold && q.unread == 0 && q.pending_requests == 0 && q.t_ms > q.last_io_ms + 100 && !q.server_idle {
+        if !q.ended && !q.hold && !q.writes_stalled && q.unread == 0 && q.pending_requests == 0 && q.t_ms > q.last_io_ms + 100 && !q.server_idle {
             r.fail(format!(
                 "at t={} ms (after step {}), {} ms after the last I/O with no request pending, the server is not in idle: notifications would stop; client output: {:?}",
                 q.t_ms,
@@ -501,6 +502,46 @@ pub fn c04(_tier: Tier) -> Property {
     }
 }
 
+/// C05 under faults: whatever goes wrong, what the client has written is a prefix of a legal session.
+fn legal_under_faults_part() -> Box<dyn crate::core::Part> {
+    Box::new(RandomPart {
+        name: "legal_under_faults",
+        rule: "C08's scripts restricted to faults on the client's own side of the conversation (peer close, persistent write error, transient Interrupted write error after a short write, handles dropped; NOT read errors or injected garbage, after which the unchanged client legitimately keeps writing until its next read fails): the simulated MPD must raise no verdict about anything the client wrote (an unterminated last line is allowed). This goes beyond C05's stated quantifier (fault-free schedules); it is kept because it holds on the unchanged tree and is the only place where a client that re-sends already written bytes after a transient write error shows. non-trivial = the fault struck",
+        cases: (20_000, 1_000_000),
+        strategy: Box::new(|_t| {
+            simgen::faulty_script()
+                .prop_filter("client-side faults only", |s| {
+                    !flatten(&s.steps).iter().any(|x| matches!(x, Step::Fault(sim::Fault::ReadErrorAfter(_)) | Step::Fault(sim::Fault::Garbage(_))))
+                })
+                .boxed()
+        }),
+        check: Box::new(|s: &Script| {
+            let obs = sim::run(s);
+            let mut r = CaseResult::new();
+            if obs.panics > 0 {
+                r.fail(format!("panic inside the client: {:?}", crate::core::last_panic()));
+                return r;
+            }
+            if obs.eof_seen || obs.read_err_seen || obs.write_err_seen || obs.broken_pipe_seen || obs.garbage_at.is_some() {
+                r.nontrivial();
+                r.class("fault_struck");
+            }
+            for v in &obs.verdicts {
+                // an injected malformed line is unsolicited server output: the client cannot have
+                // read it before it writes its next line, that is not the client's doing
+                if matches!(v, Verdict::RequestWhileReplyUnread(_)) && obs.garbage_at.is_some() {
+                    continue;
+                }
+                if !matches!(v, Verdict::UnknownToken(_)) {
+                    r.fail(format!("the simulated MPD objects: {v:?}; client output: {:?}", tail(&obs.written)));
+                    return r;
+                }
+            }
+            r
+        }),
+    })
+}
+
 pub fn c05(_tier: Tier) -> Property {
     Property {
         id: "C05",
@@ -514,7 +555,7 @@ pub fn c05(_tier: Tier) -> Property {
                 let obs = sim::run(s);
                 judge_c05(s, &obs)
             }),
-        }), systematic_part(judge_c05), crate::fuzzops::corpus_part("fuzz_corpus", "fz_sim", "C05", crate::fuzzops::sim_target)],
+        }), systematic_part(judge_c05), legal_under_faults_part(), crate::fuzzops::corpus_part("fuzz_corpus", "fz_sim", "C05", crate::fuzzops::sim_target)],
         assumptions: vec!["the server model implements MPD's idle rules (client/Process.cxx, client/Idle.cxx): noidle outside idle is ignored without reply, anything but noidle during idle is a protocol violation"],
         selftest: None,
     }
